@@ -263,7 +263,9 @@ def run_shard(spec):
         k = data.draw(st.sampled_from([1, 1, 1, 2, 3]))
         idxs = sorted(set(data.draw(st.lists(st.sampled_from(cands), min_size=1, max_size=k))))
         case = {"kind": "ignore", "src": src, "lines": idxs, "opts": data.draw(options()),
-                "ign": data.draw(st.sampled_from([IGN, IGN, IGN, "  #pyrefact:ignore", "  #   pyrefact :  ignore", " # pyrefact: ignore (reason)"]))}
+                "ign": data.draw(st.sampled_from([IGN, IGN, IGN, "  #pyrefact:ignore", "  #   pyrefact :  ignore", " # pyrefact: ignore (reason)",
+                                                  "  # noqa: E501  # pyrefact: ignore", "  # type: ignore # pyrefact: ignore", "  # see issue #12 # pyrefact: ignore",
+                                                  "  ## pyrefact: ignore"]))}
         info = {}
         fails = eval_ignore(case, info)
         acc.case(case, bool(info.get("mattered")), [f"ignore:{label.split('+')[0]}", "mattered" if info.get("mattered") else "line-untouched-anyway"],
